@@ -237,6 +237,13 @@ class Translator:
         except Unsupported as e:
             self.done[m] = {"error": str(e), "own": True}
             raise
+        except RecursionError:
+            raise
+        except Exception as e:   # noqa - FAIL CLOSED: a statement/expression shape the translator does not know (it indexed
+            # into a node that is not what it assumed) makes THIS method untranslatable; it never crashes the run
+            why = f"translator does not know this shape ({type(e).__name__}: {str(e)[:120]})"
+            self.done[m] = {"error": why, "own": True}
+            raise Unsupported(why)
         self.done[m] = d
         return d
 
@@ -737,6 +744,8 @@ class Translator:
             pre, st, env = self.hoist(st, "value", env, pad)
             if isinstance(st, ast.AugAssign):
                 tgt = st.target
+                if not (isinstance(tgt, ast.Name) or is_self(tgt)):
+                    bad(st, f"augmented assignment to {type(tgt).__name__} target")
                 cur = self.ex(ast.Attribute(value=tgt.value, attr=tgt.attr, ctx=ast.Load())
                               if isinstance(tgt, ast.Attribute) else ast.Name(id=tgt.id, ctx=ast.Load()), env)
                 rhs = self.ex(st.value, env)
@@ -839,9 +848,13 @@ def render(src: str, mod=None) -> tuple[str, dict]:
     try:
         tr = Translator(src, mod)
         tr.check_log_event()
-    except (Unsupported, SyntaxError) as e:
-        info["unsupported"] = {m: str(e) for m in PUBLIC}
-        return fallback(str(e)), info
+    except RecursionError:
+        info["unsupported"] = {m: "recursion" for m in PUBLIC}
+        return fallback("recursion"), info
+    except Exception as e:   # noqa - fail closed on anything, never crash
+        why = str(e) if isinstance(e, (Unsupported, SyntaxError)) else f"translator failed ({type(e).__name__}: {str(e)[:120]})"
+        info["unsupported"] = {m: why for m in PUBLIC}
+        return fallback(why), info
     for m in PUBLIC:
         try:
             tr.info(m)
